@@ -361,6 +361,21 @@ func (s *Sim) CheckAll() error {
 		if err := s.CheckCommit(sideName(x)+".LocalCommitment", &lc, e, true); err != nil {
 			return err
 		}
+		// classification for evidence
+		if e.OpenerShort {
+			s.label("opener_cannot_pay_full_fee")
+		}
+		if len(e.Live) != len(e.NonDust) {
+			s.label("dust_htlc_on_commitment")
+		}
+		for _, h := range e.Live {
+			if s.IsDustOn(0, h, e.FeePerKw) != s.IsDustOn(1, h, e.FeePerKw) {
+				s.label("dust_straddle")
+			}
+		}
+		if len(e.Live) >= 6 {
+			s.label("six_or_more_live_htlcs")
+		}
 		own[x] = view{lc.CommitTx, lc.CommitHeight}
 	}
 	for x := 0; x < 2; x++ {
